@@ -1759,7 +1759,10 @@ func ReadTerm(vm *VM, streamOrAlias, out, options Term, k Cont, env *Env) *Promi
 
 	p := NewParser(vm, s)
 	t, err := p.Term()
-	_ = s.UnreadRune()
+	if err != io.EOF {
+		// Put back the character after the end token. On io.EOF, end_of_file is what was read.
+		_ = s.UnreadRune()
+	}
 	switch err {
 	case nil:
 		break
